@@ -17,10 +17,12 @@ from mc.ref.deps import RefDeps
 
 
 def _limit_hours(v):
+    """limit value in hours as an exact fraction (130 min is 13 slots of 10 min, not 12.999...)"""
     import re
+    from fractions import Fraction
 
     m = re.match(r"(\d+(?:\.\d+)?)(min|h|d|w)", v)
-    return float(m.group(1)) * {"min": 1 / 60.0, "h": 1, "d": 8, "w": 40}[m.group(2)]
+    return Fraction(m.group(1)) * {"min": Fraction(1, 60), "h": 1, "d": 8, "w": 40}[m.group(2)]
 
 
 class _Lim:
